@@ -129,6 +129,16 @@ def handle (st : St) (toks : List String) : Option (St × String) :=
       let (om, on) := cut off
       let (cm, cn) := cut cpi
       pure (st, if on.isEmpty ∧ cn.isEmpty then s!"OFF {om} CPI {cm}" else s!"OFF {om} CPI {cm} | {on},{cn}")
+  | ["checkc", tag, prog, ixd, infos] => do
+    -- configs built from the provided accounts themselves (key and flags), stored with init, validated against those accounts
+    let disc ← Driver.TlvD.tag? tag
+    let infos ← parseInfos infos
+    let cfgs := infos.map (fun i => newWithPubkey i.key i.signer i.writable)
+    let n ← match Resolution.sizeOf cfgs.length with | .ok k => some k | _ => none
+    let (b', ini) := Resolution.init (Bytes.zeros n) disc cfgs
+    let r := checkAccountInfos pda infos (← Hex.toBytes ixd) (← Hex.toBytes prog) b' disc
+    let cut (x : String) : String := (x.splitOn " | ").headD x
+    pure (st, s!"init={cut (unitRes ini)} check={unitRes r}")
   | ["checkh", tag, stored, newc, prog, ixd, infos] => do
     let disc ← Driver.TlvD.tag? tag
     let (b', up) := Resolution.update (← Hex.toBytes stored) disc (← parseCfgs newc)
